@@ -48,7 +48,7 @@ def constify(rng, f, consts):
     return fml.rebuild(f, [constify(rng, c, consts) for c in fml.children(f)])
 
 
-def gen_modular(rng, tier, nrand_quick, nrand_thorough):
+def gen_modular(rng, tier, nrand_quick, nrand_thorough, gen_kwargs=None, base=True):
     cases = []
     nrand = nrand_quick if tier == 'quick' else nrand_thorough
     P = ('pred', 'geq', ('var', 0), ('const', 1))
@@ -56,10 +56,11 @@ def gen_modular(rng, tier, nrand_quick, nrand_thorough):
     base = [('and', ('once', P), ('prev', ('once', P))), ('since', ('prev', P), ('or', ('prev', P), Q)), ('or', ('oncet', 0, 2, P), ('not', ('oncet', 0, 2, P))),
             ('and', ('evt', 0, 2, P), ('alwt', 1, 2, ('evt', 0, 2, P))), ('implies', ('hist', P), ('sincet', 0, 1, ('hist', P), Q)),
             ('a2', 'add', ('sprev', ('var', 0)), ('sprev', ('var', 0))), ('until', P, ('next', Q)), ('rise', ('and', P, Q))]
-    items = [(f, 2) for f in base for _ in range(2)]
+    items = [(f, 2) for f in base for _ in range(2)] if base is True else []
+    gen_kwargs = gen_kwargs or {}
     for i in range(nrand):
         nv = rng.choice([1, 2, 2, 3])
-        g = fml.Gen(rng, nvars=nv, maxb=2, fancy_arith=False)
+        g = fml.Gen(rng, nvars=nv, maxb=2, fancy_arith=False, **gen_kwargs)
         f = g.formula(rng.choice([2, 2, 3, 3, 4]))
         if fml.size(f) > 40 or fml.size(f) < 4:
             continue
@@ -75,19 +76,54 @@ def gen_modular(rng, tier, nrand_quick, nrand_thorough):
             subs = [(n, constify(rng, b, consts), s) for (n, b, s) in subs]
             main = constify(rng, main, consts)
         n = rng.choice([1, 2, 3, 5, 8, 12])
-        cases.append({'f': f, 'n': n, 'nv': nv, 'cols': fml.gen_trace(rng, nv, n), 'times': list(range(n)),
-                      'subs': [[nm, b, s] for (nm, b, s) in subs], 'main': main, 'consts': consts,
-                      'style': rng.choice(['add_sub_spec', 'one_text'])})
+        c = {'f': f, 'n': n, 'nv': nv, 'cols': fml.gen_trace(rng, nv, n), 'times': list(range(n)),
+             'subs': [[nm, b, s] for (nm, b, s) in subs], 'main': main, 'consts': consts,
+             'style': rng.choice(['add_sub_spec', 'one_text'])}
+        if (fml.ops(f) & (fml.TUN | fml.TBIN)) and rng.random() < 0.2:
+            # bounds written with explicit units, another default unit and a sampling period in another unit
+            p, pu = rng.choice([(1, 's'), (500, 'ms'), (2, 's'), (100, 'us'), (1000, 'ms'), (1, 'ms')])
+            pns = p * UNITS[pu]
+            alts = [(pns // UNITS[u], u) for u in UNITS if pns % UNITS[u] == 0]
+            c['units'] = {'period': list(rng.choice(alts)) + [0.1], 'unit': rng.choice(list(UNITS)), 'pns': pns, 'seed': rng.randrange(1 << 20)}
+        cases.append(c)
     return cases
+
+
+UNITS = {'s': 10**9, 'ms': 10**6, 'us': 10**3, 'ns': 1}
+
+
+def bound_renderer(c):
+    """None (plain sample counts) or a renderer that spells every bound with explicit units"""
+    u = c.get('units')
+    if not u:
+        return None
+    import random
+    from harness.c08 import spell_bound
+
+    def bound(b, e):
+        r = random.Random(u['seed'] * 1000003 + b * 131 + e)
+        return spell_bound(r, b * u['pns'], e * u['pns'], u['unit'])[0]
+    return bound
+
+
+def unit_kw(c):
+    u = c.get('units')
+    return {'period': u['period'], 'unit': u['unit']} if u else {}
 
 
 def modular_spec(c):
     """(kwargs for the implementation case) of the modular program"""
-    subtexts = ['%s = %s;' % (nm, fml.to_text(shrinkfix(b))) for (nm, b, s) in c['subs']]
-    main = 'out = ' + fml.to_text(shrinkfix(c['main']))
+    br = bound_renderer(c)
+    subtexts = ['%s = %s;' % (nm, fml.to_text(shrinkfix(b), br)) for (nm, b, s) in c['subs']]
+    main = 'out = ' + fml.to_text(shrinkfix(c['main']), br)
     if c.get('style') == 'one_text':
-        return {'spec': '\n'.join(subtexts) + '\n' + main + ';', 'consts': c.get('consts', [])}
-    return {'subspecs': subtexts, 'spec': main, 'consts': c.get('consts', [])}
+        return dict({'spec': '\n'.join(subtexts) + '\n' + main + ';', 'consts': c.get('consts', [])}, **unit_kw(c))
+    return dict({'subspecs': subtexts, 'spec': main, 'consts': c.get('consts', [])}, **unit_kw(c))
+
+
+def inlined_spec(c, f=None):
+    """the inlined formula (or a named sub-formula) as a stand-alone specification, in the same unit setting"""
+    return dict({'spec': 'out = ' + fml.to_text(f if f is not None else c['f'], bound_renderer(c))}, **unit_kw(c))
 
 
 def shrinkfix(f):
